@@ -168,6 +168,12 @@ func runC03(w *W) {
 		DisallowUnknownField: t.Chance(1, 5, "opt.du"), UseNativeSkip: t.Chance(1, 2, "opt.nativeskip"), EnableValueMapping: so.JSConv && t.Chance(2, 3, "opt.vm")}
 	jo := t2jOpts{Int642String: opts.Int642String, ByteAsUint8: opts.ByteAsUint8, NoBase64: opts.NoBase64Binary, ValueMapping: opts.EnableValueMapping}
 	cv := t2j.NewBinaryConv(opts)
+	if t.Chance(1, 4, "reopt.use") {
+		// the converter starts life with other options and gets these by SetOptions
+		cv = t2j.NewBinaryConv(otherOpts(t, opts))
+		cv.SetOptions(opts)
+		w.Count("converter_reconfigured_by_SetOptions")
+	}
 	ctx := context.Background()
 	w.Logf("IDL:\n%s\noptions %+v flavour %s", sch.IDL, opts, flavour)
 	w.Sig(fmt.Sprintf("i2s%v/u8%v/nb%v/vm%v/buf%d", opts.Int642String, opts.ByteAsUint8, opts.NoBase64Binary, opts.EnableValueMapping, conv.DefaultBufferSize))
